@@ -3232,7 +3232,13 @@ define_array_type(InterrogateType &itype, CPPArrayType *cpptype) {
     // This indicates an unsized array.
     itype._array_size = -1;
   } else {
-    itype._array_size = cpptype->_bounds->evaluate().as_integer();
+    CPPExpression::Result result = cpptype->_bounds->evaluate();
+    if (result._type == CPPExpression::RT_integer) {
+      itype._array_size = result.as_integer();
+    } else {
+      // We can't evaluate the bound; report the size as unknown rather than 0.
+      itype._array_size = -1;
+    }
   }
 }
 
